@@ -10,7 +10,7 @@ def repo_commits(prefix):
 CHECKS = {
  "C04": dict(
    technique="runtime monitor: concatenation oracle over exhaustive small-scope and seeded random tokenizer runs, with the H1 loop-progress hook",
-   text="Every string up to length 3 (quick) / 5 (thorough) over a 24-character alphabet containing every state-selecting class is tokenized by the real generic, expression, CSV and mustache tokenizers (plus two configured variants) with all options off, and a monitor checks that the token values concatenate to the input, that no token before the end is empty and that the stream ends with exactly one end-of-input marker; seeded random long inputs extend the reach. Bounded exploration of real executions, exhaustive inside the stated scope.",
+   text="Every string up to length 3 (quick) / 5 (thorough) over a 24-character alphabet containing every state-selecting class is tokenized by the real generic, expression, CSV and mustache tokenizers (plus two configured variants) with all options off, and a monitor checks that the token values concatenate to the input, that no token before the end is empty and that the stream ends with exactly one end-of-input marker; seeded random long inputs, every BMP code point in three positions, and single tokens of every class with lengths around 256, 1024, 4096 and 65535 extend the reach. Bounded exploration of real executions, exhaustive inside the stated scope.",
    note="Trusts Go string equality only; no reference tokenizer is involved. Inputs outside the enumerated scope are reached only by the random generator.",
    ref="DESIGN.md §3 C04"),
  "C11": dict(
@@ -25,7 +25,7 @@ CHECKS = {
    ref="DESIGN.md §3 C14"),
  "C16": dict(
    technique="runtime monitor: longest-prefix reference oracle over exhaustively enumerated symbol tables, registration orders, inputs and repeated reads on the real SymbolRootNode",
-   text="Real symbol tables are built for every set of up to 3 (quick) / 4 (thorough) of the 39 strings of length 1..3 over {<,=,>} (and over {a, ш, €} for children above U+00FF) in every or seeded registration orders with distinct token types; every input of length 1..4 is read on each table twice (second pass in reverse order, so every read happens after other reads) and the monitor compares text, type and number of consumed characters with a direct longest-prefix search. Random larger tables and the built-in tokenizers' tables (before/after adding symbols) complete it.",
+   text="Real symbol tables are built for every set of up to 3 (quick) / 4 (thorough) of the 39 strings of length 1..3 over {<,=,>} (and over {a, ш, €} for children above U+00FF) in every or seeded registration orders with distinct token types; every input of length 1..4 is read on each table twice (second pass in reverse order, so every read happens after other reads) and the monitor compares text, type and number of consumed characters with a direct longest-prefix search. Random larger tables, tables built incrementally (inputs read between registrations, the symbol about to be registered last before and first after), and the built-in tokenizers' tables (before/after adding symbols) complete it.",
    note="Symbols containing U+0000, duplicate registrations with different types and token type 0 are don't-care.",
    ref="DESIGN.md §3 C16"),
  "C17": dict(
@@ -50,7 +50,7 @@ CHECKS = {
    ref="DESIGN.md §3 C15"),
  "C06": dict(
    technique="runtime monitor: host-arithmetic reference table compared with every operator result over all ordered pairs of a boundary value pool, both managers",
-   text="All 21 operators of both operation managers are executed on all ordered pairs of an 88-value boundary pool (every variant type; extremes, zero, negatives, NaN/Inf, empty and non-ASCII strings, zones, nested arrays) and on seeded random pairs; the monitor compares type and value with a host-arithmetic table written per (operator, type) in the harness, requires errors for division by zero, negative shifts, out-of-range indexes and unsupported types, checks Null propagation, operand immutability and the mutual consistency of the six comparisons.",
+   text="All 21 operators of both operation managers are executed on all ordered pairs of a 99-value boundary pool (every variant type; extremes, zero, negatives, NaN/Inf, empty and non-ASCII strings, zones, nested arrays) and on seeded random pairs; the monitor compares type and value with a host-arithmetic table written per (operator, type) in the harness, requires errors for division by zero, negative shifts, out-of-range indexes and unsupported types, checks Null propagation, operand immutability and the mutual consistency of the six comparisons.",
    note="The second operand is converted with the manager's own Convert (checked by C07); Go's math/time are trusted. Don't-care zones: shift counts >= 64, equality of Object/Array values, equality with Null (only consistency), NOT of Null, IN over arrays with incomparable elements.",
    ref="DESIGN.md §3 C06"),
  "C07": dict(
@@ -75,7 +75,7 @@ CHECKS = {
    ref="DESIGN.md §3 C01"),
  "C02": dict(
    technique="runtime monitor: accept/reject and compiled-program oracle from an independent tabular (span-memoised) reference parser over exhaustively enumerated token sequences",
-   text="Every token sequence of length 1..4 (quick) / 1..5 (thorough) over a 23-symbol vocabulary and of length up to 5 / 7 over the 12 symbols that carry brackets and the multi-token operators is rendered and given to the real parser; a tabular reference parser for the grammar (not recursive descent) decides whether it is a sentence and what its tree is; sentences must be accepted and compiled to the tree's post-order, everything else must be rejected with an error that carries a code, never a panic. Token-level mutations (insert, delete, replace, swap, duplicate) of generated valid expressions extend the reach.",
+   text="Every token sequence of length 1..4 (quick) / 1..5 (thorough) over a 23-symbol vocabulary and of length up to 5 / 7 over the 12 symbols that carry brackets and the multi-token operators is rendered and given to the real parser; a tabular reference parser for the grammar (not recursive descent) decides whether it is a sentence and what its tree is; sentences must be accepted and compiled to the tree's post-order, everything else must be rejected with an error that carries a code, never a panic. Token-level mutations (insert, delete, replace, swap, duplicate) of generated valid expressions extend the reach, and a token-API sub-check hands the same expressions over as token lists (ParseTokens twice on one slice, SetOriginalTokens) and compares with ParseString.",
    note="Only a trailing comma before ')' is left open (documented don't-care). Lexing is not in play (single blanks); that is C13.",
    ref="DESIGN.md §3 C02"),
  "C18": dict(
@@ -90,12 +90,12 @@ CHECKS = {
    ref="DESIGN.md §3 C03"),
  "C05": dict(
    technique="runtime monitor: fresh-instance differential over all ordered pairs and random sequences of inputs on reused instances; has-next interleaving patterns",
-   text="Twelve components (four tokenizers option-free and with option sets, expression parser and calculator, mustache parser and template) are fed every ordered pair of their input pools (77 tokenizer inputs with every multi-character symbol, token class, unterminated literal, push-back position; 48 expressions; 30 templates) and seeded longer sequences with aborted iterations on one reused instance; after every input the observable product must equal that of a freshly constructed instance. All 39 patterns of 0-2 HasNextToken calls before NextToken are compared with a plain loop.",
+   text="Twelve components (four tokenizers option-free and with option sets, expression parser and calculator, mustache parser and template) are fed every ordered pair of their input pools (77 tokenizer inputs with every multi-character symbol, token class, unterminated literal, push-back position; 48 expressions; 30 templates) and seeded longer sequences with aborted iterations on one reused instance; after every input the observable product must equal that of a freshly constructed instance. All 39 patterns of 0-2 HasNextToken calls before NextToken are compared with a plain loop; further steps re-use the same reset scanner object, hand inputs over through the token API, and evaluate one compiled expression with alternating function collections.",
    note="The reference is the same code in a fresh instance, which is what the statement defines. Default variable collections accumulate by design and are not compared; evaluation uses an explicit collection.",
    ref="DESIGN.md §3 C05"),
  "C09": dict(
    technique="runtime monitor: round-trip oracle (harness writer -> real CsvTokenizer -> regrouping) over exhaustive small tables and random tables x configurations x line endings",
-   text="Tables are written by the harness' own writer (raw or quote-encoded fields, configured separators, one of four line endings), tokenized by a real CsvTokenizer configured accordingly with string decoding on, and regrouped; the rows and fields must come back exactly and every line ending must be one end-of-line token. Exhaustive: all 1x1 tables with fields up to length 4/5 over a 9-character alphabet, all 1x2/2x1 tables of fields up to length 2, all 2x2 tables of fields up to length 1, for two configurations; random tables up to 6x6 for six configurations including separators and quotes above U+00FF.",
+   text="Tables are written by the harness' own writer (raw or quote-encoded fields, configured separators, one of four line endings), tokenized by a real CsvTokenizer configured accordingly with string decoding on, and regrouped; the rows and fields must come back exactly and every line ending must be one end-of-line token. Exhaustive: all 1x1 tables with fields up to length 4/5 over a 9-character alphabet, all 1x2/2x1 tables of fields up to length 2, all 2x2 tables of fields up to length 1, for two configurations; random tables up to 6x6 for six configurations including separators and quotes above U+00FF; a reconfiguration sub-check re-uses one tokenizer (and the caller's slices) for several configurations in a row.",
    note="Characters at or above U+FFFF, mixed line-end styles and the table whose text is empty are don't-care.",
    ref="DESIGN.md §3 C09"),
  "C10": dict(
@@ -105,7 +105,7 @@ CHECKS = {
    ref="DESIGN.md §3 C10"),
  "C19": dict(
    technique="Go race detector over concurrent evaluations of shared parsed instances with the H3 yield hook, plus snapshot and sequential-result monitors",
-   text="Compiled expressions and templates are evaluated sequentially under several variable sets in permuted orders (results must repeat; deep snapshots of program, constants, variable values and function table must not change) and then by 2, 4 or 16 goroutines sharing the instance, each with its own variables, while hook H3 yields at seeded steps inside the evaluations; every concurrent result must equal the sequential one, the race detector log must stay empty, and the run reports how many distinct interleavings of evaluation steps it observed (fewer than 50/100 makes it inconclusive). A third workload runs 16 goroutines each owning its own tokenizers, calculator and template.",
+   text="Compiled expressions and templates are evaluated sequentially under several variable sets in permuted orders (results must repeat; deep snapshots of program, constants, variable values and function table must not change) and then by 2, 4 or 16 goroutines sharing the instance, each with its own variables (instances that have never evaluated anything; once while hook H3 yields at seeded steps inside the evaluations, once with the hooks removed so that the monitor's own synchronisation cannot hide a race); every concurrent result must equal the sequential one, the race detector log must stay empty, and the run reports how many distinct interleavings of evaluation steps it observed (fewer than 50/100 makes it inconclusive). A third workload runs 16 goroutines each owning its own tokenizers, calculator and template.",
    note="The race detector and H3 see only the schedules that occurred; the claim is 'no race and no deviation in the executions observed'.",
    ref="DESIGN.md §3 C19"),
 }
